@@ -1,11 +1,56 @@
 /-
-  Lemmas about the filter walk of `exception_catch` (Cello/Exn.lean: `tupleNext`, `walkFrom`, `catchDecision`):
-  on a duplicate-free filter the walk is membership; on a filter with a repeated object and a non-matching
-  exception it never terminates, whatever the fuel.
+  Lemmas about the filter walk of `exception_catch` (Cello/Exn.lean).
+  Current code (`walkIdx`, `catchDecision`: walk by index, fix a0ef2da): the walk is membership for every filter,
+  repeated objects or not, and it always terminates.
+  OLD variant (`tupleNext`, `walkFrom`, `catchDecisionOld`: foreach over the Tuple): on a duplicate-free filter the
+  walk is membership; on a filter with a repeated object and a non-matching exception it never terminates, whatever
+  the fuel.
 -/
 import Cello.Exn
 
 namespace Cello.Exn
+
+/-! ### current code: the walk by index -/
+
+theorem walkIdx_membership (obj : Nat) (hobj : obj ≠ 0) (f : List Nat) :
+    walkIdx obj f = if f.contains obj then .matched else .exhausted := by
+  induction f with
+  | nil => simp [walkIdx]
+  | cons a rest ih =>
+    simp only [walkIdx, hobj, if_false]
+    by_cases ha : a = obj
+    · simp [ha]
+    · have hne : ¬ obj = a := fun e => ha e.symm
+      simp [ha, hne, ih]
+
+/-- **`exception_catch` decides by membership, for every filter** (empty = catch all) — also one that names an object
+    twice. -/
+theorem catchDecision_membership (f : List Nat) (obj : Nat) (hobj : obj ≠ 0) :
+    catchDecision f obj = if fmatch f obj then .matched else .exhausted := by
+  unfold catchDecision fmatch
+  by_cases he : f.isEmpty
+  · simp [he]
+  · simp [he, walkIdx_membership obj hobj f]
+
+theorem walkIdx_ne_hang (obj : Nat) (f : List Nat) : walkIdx obj f ≠ .hang := by
+  induction f with
+  | nil => simp [walkIdx]
+  | cons a rest ih =>
+    simp only [walkIdx]
+    split
+    · simp
+    · split
+      · simp
+      · exact ih
+
+/-- the walk by index always ends (any filter, any object, NULL included) -/
+theorem catchDecision_ne_hang (f : List Nat) (obj : Nat) : catchDecision f obj ≠ .hang := by
+  unfold catchDecision
+  split
+  · simp
+  · exact walkIdx_ne_hang obj f
+
+/-! ### OLD variant: the foreach walk -/
 
 theorem tupleNext_skip (pre : List Nat) (a : Nat) (rest : List Nat) (h : a ∉ pre) :
     tupleNext (pre ++ a :: rest) a = rest.head? := by
@@ -45,10 +90,10 @@ theorem walkFrom_nodup_aux (obj : Nat) (hobj : obj ≠ 0) :
         have hne : ¬ obj = a := fun e => ha e.symm
         simp [hne, ha]
 
-/-- **On a duplicate-free filter `exception_catch` decides by membership** (empty = catch all). -/
-theorem catchDecision_nodup (f : List Nat) (obj : Nat) (hobj : obj ≠ 0) (hnd : f.Nodup) :
-    catchDecision f obj = if fmatch f obj then .matched else .exhausted := by
-  unfold catchDecision fmatch
+/-- **On a duplicate-free filter the OLD `exception_catch` decided by membership** (empty = catch all). -/
+theorem catchDecisionOld_nodup (f : List Nat) (obj : Nat) (hobj : obj ≠ 0) (hnd : f.Nodup) :
+    catchDecisionOld f obj = if fmatch f obj then .matched else .exhausted := by
+  unfold catchDecisionOld fmatch
   by_cases he : f.isEmpty
   · simp [he]
   · have := walkFrom_nodup_aux obj hobj f [] (f.length + 1) (by simpa using hnd) (Nat.le_refl _)
@@ -124,8 +169,9 @@ theorem walkFrom_dup_aux (obj : Nat) (hobj : obj ≠ 0) :
         have := ih (pre ++ [a]) b hP' (by simpa using hdup) (by simpa using hnot) n
         simpa using this
 
-/-- **A filter that lists an object twice**: for an exception that is in the filter nowhere, the walk of
-    `exception_catch` never ends — for every amount of fuel (this is finding KF-C07-filter-dup, consequence of F13). -/
+/-- **A filter that lists an object twice**: for an exception that is in the filter nowhere, the foreach walk of the
+    OLD `exception_catch` never ends — for every amount of fuel (this was finding KF-C07-filter-dup, consequence of F13;
+    repaired by a0ef2da). -/
 theorem walkFrom_dup_hangs (f : List Nat) (obj : Nat) (hobj : obj ≠ 0) (hdup : ¬ f.Nodup) (hnot : obj ∉ f) :
     ∀ n, walkFrom f obj n f.head? = .hang := by
   cases f with
@@ -135,9 +181,9 @@ theorem walkFrom_dup_hangs (f : List Nat) (obj : Nat) (hobj : obj ≠ 0) (hdup :
     have := walkFrom_dup_aux obj hobj rest [] a (by simp) (by simpa using hdup) (by simpa using hnot) n
     simpa using this
 
-theorem catchDecision_dup_hangs (f : List Nat) (obj : Nat) (hobj : obj ≠ 0) (hdup : ¬ f.Nodup) (hnot : obj ∉ f) :
-    catchDecision f obj = .hang := by
-  unfold catchDecision
+theorem catchDecisionOld_dup_hangs (f : List Nat) (obj : Nat) (hobj : obj ≠ 0) (hdup : ¬ f.Nodup) (hnot : obj ∉ f) :
+    catchDecisionOld f obj = .hang := by
+  unfold catchDecisionOld
   have hne : f.isEmpty = false := by
     cases f with
     | nil => exact absurd List.nodup_nil hdup
